@@ -100,8 +100,11 @@ def minimal(img):
     return img
 
 
-def raster(sites, scale, pad=6, minimal_junctions=True):
-    """returns (binary skeleton image, reference topology dict)"""
+def raster(sites, scale, pad=6, minimal_junctions=True, style="ridges"):
+    """returns (binary skeleton image, reference topology dict). style "ridges": the Voronoi ridges are drawn as digital lines and
+    thinned; style "labels": every pixel gets the label of its nearest site and the skeleton is the set of pixels whose right or lower
+    neighbour carries another label (what a watershed / label-boundary segmentation delivers), cleaned to minimal 8-connectivity:
+    its junctions are L-shaped pixel triples more often than single pixels"""
     import cv2
     import scipy.ndimage as ndi
     import scipy.spatial as sp
@@ -122,16 +125,30 @@ def raster(sites, scale, pad=6, minimal_junctions=True):
         mx = np.max([P[i] for e in used for i in e], axis=0)
         W, H = int(mx[0]) + pad + 1, int(mx[1]) + pad + 1
         img = np.zeros((H, W), np.uint8)
-        for a, b in used:
-            cv2.line(img, tuple(int(round(c)) for c in P[a]), tuple(int(round(c)) for c in P[b]), 1, 1, cv2.LINE_8)
-        lab, n = ndi.label(img == 0)
-        sizes = ndi.sum(img == 0, lab, range(1, n + 1))
-        for i, sz in enumerate(sizes, 1):
-            if sz < 12:
-                img[lab == i] = 1
-        img = zhang_suen(img)
-        if minimal_junctions:
+        if style == "labels":
+            yy, xx = np.mgrid[0:H, 0:W]
+            px = (np.stack([xx, yy], axis=-1).astype(float) - pad + mn) / scale
+            d2 = ((px[:, :, None, :] - sites[None, None, :, :]) ** 2).sum(axis=3)
+            near = d2.argmin(axis=2)
+            keptarr = np.zeros(len(sites), bool)
+            keptarr[kept] = True
+            lab0 = np.where(keptarr[near], near, -1)
+            img[:, :-1] |= (lab0[:, :-1] != lab0[:, 1:]).astype(np.uint8)
+            img[:-1, :] |= (lab0[:-1, :] != lab0[1:, :]).astype(np.uint8)
+            img[0, :] = img[-1, :] = 0
+            img[:, 0] = img[:, -1] = 0
             img = minimal(img)
+        else:
+            for a, b in used:
+                cv2.line(img, tuple(int(round(c)) for c in P[a]), tuple(int(round(c)) for c in P[b]), 1, 1, cv2.LINE_8)
+            lab, n = ndi.label(img == 0)
+            sizes = ndi.sum(img == 0, lab, range(1, n + 1))
+            for i, sz in enumerate(sizes, 1):
+                if sz < 12:
+                    img[lab == i] = 1
+            img = zhang_suen(img)
+            if minimal_junctions:
+                img = minimal(img)
         # reference topology from the Voronoi diagram
         keptset = set(kept)
         pairs = set()
